@@ -1,7 +1,7 @@
 """C09 Vector operations are the component-wise lifting of Array operations."""
 from fractions import Fraction
 
-from .. import coremachine
+from .. import coremachine, ucat
 from ..gencore import G, replay_core, run_programs
 
 TRUSTED = ["numpy sqrt in Vector.norm (compared squared)"]
@@ -190,6 +190,112 @@ def check_norm_sign(ctx, out, g):
             "call_site": "Vector.norm", "input_class": "one_component_negative"})
 
 
+def check_numpy_lifting(ctx, out):
+    """numpy functions called on Vectors (also on sequences of Vectors, with the axis given positionally or by keyword) against
+    the same call on each component Array — the property's own wording; what the Array-level call returns is C10's subject"""
+    import numpy as np
+
+    osy = ctx.osyris
+    r = ctx.rng
+    n = 150 if ctx.tier == "quick" else 3000
+    fams = ucat.REAL_FAMILIES
+    seq = ["concatenate", "stack", "hstack", "vstack"]
+    unary = ["sqrt_abs", "absolute", "negative", "square", "isnan", "transpose"]
+    reduce_ = ["sum", "mean", "min", "max", "cumsum"]
+    binary = ["add", "subtract", "multiply", "maximum", "minimum"]
+    for t in range(n):
+        ncomp = r.choice([1, 2, 3, 3])
+        shape = r.choice([[4], [2, 3], [3, 2], [2, 2, 2]])
+        fam = r.choice([f for f in sorted(fams) if f != "dimensionless"])
+        ua = r.choice(fams[fam])
+        ub = r.choice(fams[fam]) if r.random() < 0.7 else ua
+        dt = r.choice([np.float64, np.float64, np.int64])
+
+        def vec(u):
+            return osy.Vector(*[np.array([r.randint(-6, 6) for _ in range(int(np.prod(shape)))], dtype=dt).reshape(shape) for _ in range(ncomp)], unit=u)
+
+        v, w = vec(ua), vec(ub)
+        kind = r.choice(["seq", "seq", "unary", "reduce", "reduce", "binary"])
+        nd = len(shape)
+        axis = r.randint(-nd, nd - 1)
+        how = r.choice(["none", "pos", "kw"])
+        if kind == "seq":
+            name = r.choice(seq)
+            if name in ("hstack", "vstack"):
+                how = "none"
+            if name == "stack":
+                axis = r.randint(-nd - 1, nd)
+
+            def call(a, b, name=name, how=how, axis=axis):
+                f = getattr(np, name)
+                return f((a, b)) if how == "none" else (f((a, b), axis) if how == "pos" else f((a, b), axis=axis))
+        elif kind == "unary":
+            name = r.choice(unary)
+            how = "none"
+
+            def call(a, b, name=name):
+                return np.sqrt(np.absolute(a)) if name == "sqrt_abs" else getattr(np, name)(a)
+        elif kind == "reduce":
+            name = r.choice(reduce_)
+
+            def call(a, b, name=name, how=how, axis=axis):
+                f = getattr(np, name)
+                return f(a) if how == "none" else (f(a, axis) if how == "pos" else f(a, axis=axis))
+        else:
+            name = r.choice(binary)
+            how = "none"
+            ub2 = ua if name in ("add", "subtract", "maximum", "minimum") else ub      # (mixed units in these: C10's known finding)
+            w = vec(ub2)
+
+            def call(a, b, name=name):
+                return getattr(np, name)(a, b)
+        out.evaluations += 1
+        out.compared += 1
+        out.nontrivial.add(f"lifting:{t}")
+
+        def run_one(f, *args):
+            try:
+                with np.errstate(all="ignore"):
+                    return ("ok", f(*args))
+            except Exception as e:  # noqa: BLE001
+                return ("err", type(e).__name__)
+
+        got = run_one(call, v, w)
+        want = [run_one(call, getattr(v, c), getattr(w, c)) for c in "xyz"[:ncomp]]
+        bad = None
+        desc = f"np.{name} on {ncomp}-component Vectors of shape {shape}" + ("" if how == "none" else f", axis {axis} given {'positionally' if how == 'pos' else 'by keyword'}")
+        if got[0] == "err":
+            if any(x[0] == "ok" for x in want):
+                bad = f"{desc}: raised {got[1]} while the same call on the component Arrays works"
+        elif any(x[0] == "err" for x in want):
+            bad = f"{desc}: returned a result while the same call on a component Array raises {[x[1] for x in want if x[0] == 'err'][0]}"
+        else:
+            res = got[1]
+            if not isinstance(res, osy.Vector):
+                bad = f"{desc}: returned {type(res).__name__}, not a Vector"
+            else:
+                for c, (_, e) in zip("xyz", want):
+                    a = getattr(res, c)
+                    if a is None:
+                        bad = f"{desc}: component {c} is missing from the result"
+                        break
+                    av, ev = np.asarray(a.values), np.asarray(e.values)
+                    if av.shape != ev.shape or not np.array_equal(av, ev, equal_nan=av.dtype.kind == "f"):
+                        bad = (f"{desc}: component {c} has shape {list(av.shape)} values {av.ravel().tolist()[:12]}, the same call on the "
+                               f"component Arrays gives shape {list(ev.shape)} values {ev.ravel().tolist()[:12]}")
+                        break
+                    if a.unit != e.unit:
+                        bad = f"{desc}: component {c} carries {a.unit}, the component call gives {e.unit}"
+                        break
+        if bad:
+            out.violations.append({"what": bad, "case": {"function": name, "axis": None if how == "none" else axis, "axis_given": how, "ncomp": ncomp,
+                                                         "shape": shape, "units": [ua, ub], "dtype": np.dtype(dt).name,
+                                                         "v": [np.asarray(getattr(v, c).values).ravel().tolist() for c in "xyz"[:ncomp]],
+                                                         "w": [np.asarray(getattr(w, c).values).ravel().tolist() for c in "xyz"[:ncomp]]},
+                                   "call_site": "Vector.__array_ufunc__/__array_function__", "input_class": f"numpy_lifting:{name}"})
+    out.extra["numpy_lifting_cases"] = n
+
+
 def run(ctx):
     n = 800 if ctx.tier == "quick" else 16000
     ge = G(ctx.rng, ctx.osyris, "exact")
@@ -197,6 +303,7 @@ def run(ctx):
     cases = [gen_case(ge if i % 3 else gt) for i in range(n)]
     out = run_programs(ctx, cases, nontrivial, known_classifier=classify)
     check_norm_sign(ctx, out, ge)
+    check_numpy_lifting(ctx, out)
     dist = {}
     for c in cases:
         k = c["tags"][0] + ":" + c["lane"]
@@ -205,9 +312,44 @@ def run(ctx):
     out.rule = ("Vector expressions: v (op) w / Array / number / ndarray / Quantity for ten operators next to the same operation on each "
                 "component Array, component-count mismatches, unary and power, norm (squared), dot and cross in both orders with the "
                 "identities a.(a x b)=0 and Lagrange evaluated on the outputs, indexing, component access; 1-3 components, shapes 0-d..2-d, "
-                "dtypes, unit pairs incl. compatible-but-different. non-trivial = all but indexing/component access; distinct by program hash")
+                "dtypes, unit pairs incl. compatible-but-different. non-trivial = all but indexing/component access; distinct by program hash. Plus a lifting lane: numpy functions (concatenate / stack / hstack / vstack of Vector sequences, unary and binary ufuncs, reductions; axis positional or by keyword; 1-d..3-d components) against the same call on each component Array")
     return out
 
 
 def replay(ctx, path):
-    return replay_core(ctx, path)
+    import json
+
+    payload = json.load(open(path))
+    c = payload.get("case") or {}
+    if "function" not in c:
+        return replay_core(ctx, path)
+    # a case of the numpy lifting lane: the stored Vectors, the stored call
+    import numpy as np
+
+    osy = ctx.osyris
+    shape, name, axis, how = c["shape"], c["function"], c.get("axis"), c.get("axis_given", "none")
+    dt = np.dtype(c.get("dtype", "float64"))
+    v = osy.Vector(*[np.array(x, dtype=dt).reshape(shape) for x in c["v"]], unit=c["units"][0])
+    w = osy.Vector(*[np.array(x, dtype=dt).reshape(shape) for x in c["w"]], unit=c["units"][1])
+
+    def call(a, b):
+        if name == "sqrt_abs":
+            return np.sqrt(np.absolute(a))
+        f = getattr(np, name)
+        args = ((a, b),) if name in ("concatenate", "stack", "hstack", "vstack") else ((a, b) if name in ("add", "subtract", "multiply", "maximum", "minimum") else (a,))
+        return f(*args) if how == "none" else (f(*args, axis) if how == "pos" else f(*args, axis=axis))
+
+    bad = False
+    try:
+        res = call(v, w)
+        for k in "xyz"[:len(c["v"])]:
+            e = call(getattr(v, k), getattr(w, k))
+            a = getattr(res, k)
+            same = np.asarray(a.values).shape == np.asarray(e.values).shape and np.array_equal(np.asarray(a.values), np.asarray(e.values)) and a.unit == e.unit
+            print(f"component {k}: Vector call {np.asarray(a.values).tolist()} [{a.unit}], component call {np.asarray(e.values).tolist()} [{e.unit}] -> {'same' if same else 'DIFFERENT'}")
+            bad = bad or not same
+    except Exception as e:  # noqa: BLE001
+        print("raised", type(e).__name__, e)
+        bad = True
+    print("replay:", "the violation reproduces" if bad else "implementation satisfies the lifting on this input now")
+    return 1 if bad else 0
